@@ -124,6 +124,7 @@ type TermStore struct {
 	vars   []*Term
 	True   *Term
 	False  *Term
+	fpUsed bool
 }
 
 func NewTermStore() *TermStore {
@@ -149,6 +150,9 @@ func (ts *TermStore) mk(t *Term) *Term {
 	}
 	t.id = ts.nextID
 	ts.nextID++
+	if t.op >= OpFpAdd && t.op <= OpFpFromBits && len(t.args) > 0 {
+		ts.fpUsed = true
+	}
 	ts.tab[k] = t
 	if t.op == OpVar {
 		ts.vars = append(ts.vars, t)
